@@ -47,6 +47,8 @@ Definition sstep (sp : sstate) (o : op) : sstate * out :=
   | AllQuads => (sp, OQuads (sq sp))
   | GraphsFor s p o => (sp, OGraphs (map qg (filter (fun q => N.eqb (qs q) s && N.eqb (qp q) p && N.eqb (qo q) o) (sq sp))))
   | LenG g => (sp, ONum (N.of_nat (length (s_query_graph sp g None None None))))
+  | QB s p o => (sp, OQuads (s_query_graph sp 0 s p o))
+  | QBCount s p o => (sp, ONum (N.of_nat (length (s_query_graph sp 0 s p o))))
   end.
 
 Fixpoint srun (sp : sstate) (ops : list op) : sstate * list out :=
